@@ -498,6 +498,16 @@ func oracleC01(o *resOp) bool {
 	}
 	if len(want) > 0 || truth.Kind != "answer" {
 		res.Probes["secure-validated:"+truth.Kind]++
+		// reach probe: how often authentic data also came back marked authentic to a client
+		// entitled to the mark (AD is an upper-bounded claim in this property, never required;
+		// a validator that stopped setting it would still show here as a counter gone to zero)
+		if (op.DO || op.AD) && !op.CD && !everTampered {
+			if m.AuthenticatedData {
+				res.Probes["secure-with-ad-untampered"]++
+			} else {
+				res.Probes["secure-without-ad-untampered"]++
+			}
+		}
 		if (op.DO || op.AD) && m.AuthenticatedData {
 			res.Nontrivial = true
 		}
